@@ -95,6 +95,19 @@ func errReachesReturn(fn *ssa.Function, v ssa.Value) bool {
 				if val, ok := in.(ssa.Value); ok && tupleHasError(val.Type()) {
 					add(val)
 				}
+				// a helper of the module that hands the error back in another form (its parts as a []error, ordered):
+				// the result carries the error when the parameter reaches one of the helper's returns
+				if val, ok := in.(ssa.Value); ok && !tupleHasError(val.Type()) {
+					if sl, isSl := val.Type().Underlying().(*types.Slice); isSl && isErrorType(sl.Elem()) {
+						if callee := in.Common().StaticCallee(); callee != nil && len(callee.Blocks) > 0 && strings.HasPrefix(fnPkgPath(callee), modPath) && callee != fn {
+							for i, a := range in.Common().Args {
+								if a == x && i < len(callee.Params) && errReachesReturn(callee, callee.Params[i]) {
+									add(val)
+								}
+							}
+						}
+					}
+				}
 				// collected in a list first: found = append(found, err)
 				if bi, ok := in.Common().Value.(*ssa.Builtin); ok && bi.Name() == "append" {
 					if val, ok := in.(ssa.Value); ok {
